@@ -52,6 +52,10 @@ type kvElection struct {
 
 	watcherRunning atomic.Bool
 
+	// deleteKeyOnStop is set by a StopWithContext that was asked to delete the
+	// key; see discardUnclaimedRecord.
+	deleteKeyOnStop atomic.Bool
+
 	wg sync.WaitGroup
 
 	ctx    context.Context
@@ -214,6 +218,7 @@ func (e *kvElection) Start(ctx context.Context) error {
 	}
 
 	e.state.Store(StateCandidate)
+	e.deleteKeyOnStop.Store(false)
 	e.lastTransition.Store(time.Now())
 
 	log := e.getLogger()
@@ -368,6 +373,7 @@ func (e *kvElection) attemptAcquire() error {
 
 	e.recordAcquireAttempt("success")
 	if !e.becomeLeader(token, rev) {
+		e.discardUnclaimedRecord(rev)
 		return ErrAlreadyStopped
 	}
 	return nil
@@ -538,9 +544,32 @@ func (e *kvElection) attemptPriorityTakeover(payloadBytes []byte) error {
 	}
 
 	if !e.becomeLeader(newPayloadStruct.Token, newRev) {
+		e.discardUnclaimedRecord(newRev)
 		return ErrAlreadyStopped
 	}
 	return nil
+}
+
+// discardUnclaimedRecord is called by an acquisition whose write succeeded but
+// whose claim was refused because the election was stopped while the write was
+// in flight. The record at rev names this instance although it will never lead:
+// if the stop asked for the key to be deleted (StopWithContext with DeleteKey,
+// which waits for this goroutine), remove it, so that a successor does not have
+// to wait for its expiry. The stop itself cannot do it: when it began this
+// instance was not leader.
+func (e *kvElection) discardUnclaimedRecord(rev uint64) {
+	if !e.deleteKeyOnStop.Load() {
+		return
+	}
+	if err := e.deleteRecordAt(rev); err != nil {
+		log := e.getLogger()
+		log.Warn("key_deletion_failed",
+			append(e.logWithContext(e.ctx),
+				zap.Error(err),
+				zap.String("key", e.key),
+			)...,
+		)
+	}
 }
 
 // observeLeader records the id and revision of a record this instance saw as a
@@ -743,6 +772,7 @@ func (e *kvElection) StopWithContext(ctx context.Context, opts StopOptions) erro
 	wasLeader := e.isLeader.Load()
 	termToken := e.Token()
 	hasOnDemote := e.onDemote != nil
+	e.deleteKeyOnStop.Store(opts.DeleteKey)
 
 	currentState := StateInit
 	if s := e.state.Load(); s != nil {
